@@ -375,8 +375,8 @@ def probe_dead_ids(sess, tx, exp_to, conc, res, okind):
     state = tx["from"] if tx["to"].get("same") else tx["to"]
     alive = {o["id"] for o in state["objs"]}
     live_uuids = {sess.uuid[n] for n in alive if n in (sess.uuid or {})}
-    attr = {"block": "blocks", "section": "sections", "group": "groups", "array": "data_arrays", "tag": "tags",
-            "mtag": "multi_tags", "source": "sources", "feature": "features", "property": "props"}
+    attr = {"block": "blocks", "section": "sections", "group": "groups", "array": "data_arrays", "frame": "data_frames",
+            "tag": "tags", "mtag": "multi_tags", "source": "sources", "feature": "features", "property": "props"}
     for num, uid in list((sess.uuid or {}).items()):
         if num in alive or uid in live_uuids:
             continue
@@ -434,6 +434,9 @@ def probe_free_name(sess, tx, exp_to, conc, res, okind):
             parent.create_group(nm_, tp)
         elif k == "array":
             parent.create_data_array(nm_, tp, data=[1.0])
+        elif k == "frame":
+            from collections import OrderedDict
+            parent.create_data_frame(nm_, tp, col_dict=OrderedDict([("a", int)]), data=[(1,)])
         elif k == "tag":
             parent.create_tag(nm_, tp, [1.0])
         elif k == "source":
